@@ -71,12 +71,27 @@ impl<F: Fn(pipe::SimplexDirection, usize) + Send + Sync> LeftPipe<F> {
             }
 
             let datagram_len = datagram.payload.len();
-            match self.sink.write(datagram).await? {
-                datagram_pipe::SendStatus::Sent => {
+            let meta = forwarder::UdpDatagramMeta::from(&datagram.meta);
+            match self.sink.write(datagram).await {
+                Ok(datagram_pipe::SendStatus::Sent) => {
                     (self.shared.update_metrics)(self.direction, datagram_len);
                 }
-                datagram_pipe::SendStatus::Dropped => {
+                Ok(datagram_pipe::SendStatus::Dropped) => {
                     log_id!(trace, self.source.id(), "--> Datagram dropped")
+                }
+                Err(e) => {
+                    // an error of one flow's socket concerns that flow only
+                    log_id!(
+                        debug,
+                        self.source.id(),
+                        "--> Closing UDP flow due to send error: meta={:?}, error={}",
+                        meta,
+                        e
+                    );
+                    self.shared.udp_connections.lock().unwrap().remove(&meta);
+                    self.shared
+                        .forwarder_shared
+                        .on_connection_closed(&meta.reversed());
                 }
             }
         }
@@ -107,10 +122,20 @@ impl<F: Fn(pipe::SimplexDirection, usize) + Send + Sync> LeftPipe<F> {
             },
         );
 
-        self.shared
+        if let Err(e) = self
+            .shared
             .forwarder_shared
             .on_new_udp_connection(meta)
-            .await?;
+            .await
+        {
+            // no socket, no flow: the next datagram of the pair may try again
+            self.shared
+                .udp_connections
+                .lock()
+                .unwrap()
+                .remove(&forwarder::UdpDatagramMeta::from(meta));
+            return Err(e);
+        }
 
         if let Some(c) = self
             .shared
